@@ -35,7 +35,7 @@ def run(chk):
 
     # sum factorisation needs tensor-product elements (basix.create_tp_element): its own small family
     tps = [{"cell": cl, "degree": d, "term": t} for cl in ("quadrilateral", "hexahedron") for d in (1, 2)
-           for t in ("mass", "stiff", "coefmass", "xmass", "load", "withds", "twodegrees") if not (cl == "hexahedron" and d == 2 and t != "mass")]
+           for t in ("mass", "stiff", "coefmass", "xmass", "load", "withds", "twodegrees", "vcoef") if not (cl == "hexahedron" and d == 2 and t != "mass")]
     if quick:
         tps = [t for t in tps if not (t["cell"] == "hexahedron" and t["degree"] == 2)]
     for i, t in enumerate(tps):
